@@ -166,12 +166,9 @@ theorem early_tmp_gone_partial (ct : ConvTable) (p : Plan) (t0 : Tbl) (e : Err)
       have hsome : TmpSome ra.conn := by
         obtain ⟨db, hok, hw, _, _⟩ := step_none hs
         rw [hst] at hw
-        simp only [applyStmt] at hok
-        split at hok
-        · cases hok
-        · split at hok
-          · cases hok
-          · cases hok; exact ⟨_, by rw [hw]⟩
+        have hdb := applyStmt_createTmp_ok hok
+        subst hdb
+        exact ⟨_, by rw [hw]⟩
       simp only at hearly ⊢
       unfold tryBlock at hearly ⊢
       split
